@@ -1295,6 +1295,29 @@ fn derive_reprc_new(input: DeriveInput) -> TokenStream {
                 return implement_reprc_hardcoded_false(name.clone(), &input);
             }
 
+            // The serialized format numbers variants by their position. The memory image can
+            // only be identical if every in-memory discriminant equals that position.
+            for (variant_index, variant) in enum1.variants.iter().enumerate() {
+                if let Some((_, discriminant)) = &variant.discriminant {
+                    let same_as_index = match discriminant {
+                        syn::Expr::Lit(syn::ExprLit {
+                            lit: syn::Lit::Int(value),
+                            ..
+                        }) => value.base10_parse::<u64>().ok() == Some(variant_index as u64),
+                        _ => false,
+                    };
+                    if !same_as_index {
+                        if opt_in_fast {
+                            abort!(
+                                discriminant.span(),
+                                "The #[savefile_require_fast] attribute cannot be used for enums with explicit discriminants that differ from the variant index"
+                            );
+                        }
+                        return implement_reprc_hardcoded_false(name.clone(), &input);
+                    }
+                }
+            }
+
             let mut conditions = vec![];
 
             let mut min_safe_version: u32 = 0;
